@@ -747,3 +747,99 @@ Lemma w_hash_refuted :
   exists a b : weighting R, w_eqb a b = true /\
     @key_eqv R _ (w_key current_variants a) (w_key current_variants b) = false.
 Proof. exists (WArray KNpy 1 (EFin 2%R)), (WArray KPs 1 (EFin 2%R)). split; [exact arrw_equal | exact arrw_keys]. Qed.
+
+(* ------------------------------------------------------------ what holds of the CURRENT code:
+   the variants differ only where interval products of different ndim meet *)
+Section Partial.
+Variable n : nat.
+
+Definition intv_ok (a : list (ext R * ext R)) : bool := Nat.eqb (length a) n.
+
+(* every IntervalProd inside (also as the set of a partition) has ndim n *)
+Fixpoint ndims_ok (a : obj R) : bool :=
+  match a with
+  | OCart l | OUnion l | OInter l => forallb ndims_ok l
+  | OProd l _ _ => forallb ndims_ok l
+  | OIntv e => intv_ok e
+  | ODiscr p _ => intv_ok (p_intv p)
+  | _ => true
+  end.
+
+Lemma intv_eqt_indep v v' a b : intv_ok a = true -> intv_ok b = true ->
+  @intv_eqt R _ v a b = @intv_eqt R _ v' a b.
+Proof.
+  unfold intv_ok, intv_eqt, bcast_all. intros Ha Hb. apply Nat.eqb_eq in Ha, Hb.
+  rewrite !map_length. replace (Nat.eqb (length a) (length b)) with true by (symmetry; apply Nat.eqb_eq; lia).
+  destruct (v_intv_guard v), (v_intv_guard v');
+    destruct (all2 ext_eqb (map fst a) (map fst b)), (all2 ext_eqb (map snd a) (map snd b)); reflexivity.
+Qed.
+
+Lemma tupt_indep v v' (l1 : list (obj R)) :
+  Forall (fun x => forall y, ndims_ok x = true -> ndims_ok y = true -> @eqt R _ v x y = @eqt R _ v' x y) l1 ->
+  forall l2, forallb ndims_ok l1 = true -> forallb ndims_ok l2 = true ->
+  tupt (@eqt R _ v) l1 l2 = tupt (@eqt R _ v') l1 l2.
+Proof.
+  induction 1 as [|x l1 Hx Hl IH]; intros [|y l2] H1 H2; cbn [tupt]; try reflexivity.
+  cbn in H1, H2. apply andb_true_iff in H1 as [H1a H1b], H2 as [H2a H2b].
+  rewrite (Hx y H1a H2a). destruct (eqt v' x y); try reflexivity. apply IH; assumption.
+Qed.
+Lemma zipt_indep v v' (l1 : list (obj R)) :
+  Forall (fun x => forall y, ndims_ok x = true -> ndims_ok y = true -> @eqt R _ v x y = @eqt R _ v' x y) l1 ->
+  forall l2, forallb ndims_ok l1 = true -> forallb ndims_ok l2 = true ->
+  zipt (@eqt R _ v) l1 l2 = zipt (@eqt R _ v') l1 l2.
+Proof.
+  induction 1 as [|x l1 Hx Hl IH]; intros [|y l2] H1 H2; cbn [zipt]; try reflexivity.
+  cbn in H1, H2. apply andb_true_iff in H1 as [H1a H1b], H2 as [H2a H2b].
+  rewrite (Hx y H1a H2a). destruct (eqt v' x y); try reflexivity. apply IH; assumption.
+Qed.
+
+Lemma anyt_ext {A} (f g : A -> tri) l : Forall (fun x => f x = g x) l -> anyt f l = anyt g l.
+Proof. induction 1 as [|x l Hx Hl IH]; cbn; [reflexivity|]. rewrite Hx, IH. reflexivity. Qed.
+Lemma allt_ext {A} (f g : A -> tri) l : Forall (fun x => f x = g x) l -> allt f l = allt g l.
+Proof. induction 1 as [|x l Hx Hl IH]; cbn; [reflexivity|]. rewrite Hx, IH. reflexivity. Qed.
+
+Lemma setlike_indep v v' (l1 l2 : list (obj R)) :
+  Forall (fun x => forall y, ndims_ok x = true -> ndims_ok y = true -> @eqt R _ v x y = @eqt R _ v' x y) l1 ->
+  forallb ndims_ok l1 = true -> forallb ndims_ok l2 = true ->
+  setlike_eqt v l1 l2 = setlike_eqt v' l1 l2.
+Proof.
+  intros IH H1 H2. rewrite Forall_forall in IH. rewrite forallb_forall in H1, H2.
+  unfold setlike_eqt. f_equal.
+  - apply allt_ext, Forall_forall. intros s Hs. apply anyt_ext, Forall_forall. intros t Ht.
+    apply IH; auto.
+  - apply allt_ext, Forall_forall. intros t Ht. apply anyt_ext, Forall_forall. intros s Hs.
+    apply IH; auto.
+Qed.
+
+Theorem eqt_variant_indep v v' : forall a b : obj R, ndims_ok a = true -> ndims_ok b = true ->
+  @eqt R _ v a b = @eqt R _ v' a b.
+Proof.
+  induction a as [| |k| | | |l IH|l IH|l IH|els|e|g|t|p t|l w f IH] using obj_ind'; intros b Ha Hb;
+    destruct b; try reflexivity.
+  - rewrite !eqt_cart. apply tupt_indep; assumption.
+  - rewrite !eqt_union. apply setlike_indep; assumption.
+  - rewrite !eqt_inter. apply setlike_indep; assumption.
+  - cbn [eqt]. apply intv_eqt_indep; assumption.
+  - cbn [eqt]. unfold part_eqt. cbn in Ha, Hb. rewrite (intv_eqt_indep v v' (p_intv p0) (p_intv p)); auto.
+  - rewrite !eqt_prod. destruct (negb _); [reflexivity|]. destruct (negb _); [reflexivity|].
+    apply zipt_indep; assumption.
+Qed.
+
+(* hence, on objects whose interval products all have one ndim, the CURRENT code's == is total
+   and an equivalence as well *)
+Corollary current_eq_partial (a b c : obj R) :
+  ndims_ok a = true -> ndims_ok b = true -> ndims_ok c = true ->
+  @eqt R _ current_variants a b <> EE /\
+  @eqt R _ current_variants a a = TT /\
+  @eqt R _ current_variants a b = @eqt R _ current_variants b a /\
+  (@eqt R _ current_variants a b = TT -> @eqt R _ current_variants b c = TT -> @eqt R _ current_variants a c = TT).
+Proof.
+  intros Ha Hb Hc.
+  rewrite !(eqt_variant_indep current_variants repaired_variants) by assumption.
+  repeat split.
+  - apply eqt_noraise; reflexivity.
+  - apply eqt_refl; reflexivity.
+  - apply eqt_sym; reflexivity.
+  - apply eqt_trans; reflexivity.
+Qed.
+End Partial.
